@@ -35,7 +35,11 @@ func (s *Solver) portfolio(extra *Term, neg bool, vars []*Term) (SatResult, map[
 		return Unknown, nil
 	}
 	defer os.Remove(fn)
-	limit := time.Duration(s.timeout) * time.Millisecond * 6
+	factor := 6
+	if s.timeout < 120000 {
+		factor = 3 // quick tier: 30 s primary, 90 s for the other solvers
+	}
+	limit := time.Duration(s.timeout) * time.Millisecond * time.Duration(factor)
 	ctx, cancel := context.WithTimeout(context.Background(), limit)
 	defer cancel()
 	type res struct {
